@@ -56,6 +56,13 @@ def run(pid):
         jobs.append({"job_id": len(jobs) + 1, "rate": 44100, "bps": bps, "channels": ch,
                      "opts": {"block_size": bs, "max_lpc": 32, "max_po": 3, "mid_side": True, "fast_corr": False, "padding": -1, "seektable": "none"},
                      "pcm": {"signal": "hitone", "seed": 777 + bs, "frames": bs * 60 + 5}})
+    # exactly periodic patterns (period 2, 3, 4, 5, 8: ill-conditioned autocorrelation) in large blocks, every window, high LPC orders: the
+    # floating-point sums behind the LPC parameters must be taken in one order whatever the pool
+    for period in (2, 3, 4, 5, 8):
+        for bs, w in ((4096, "tukey"), (2048, "hann"), (8192, "tukey:0.25"), (4608, "rect")):
+            jobs.append({"job_id": len(jobs) + 1, "rate": 44100, "bps": 16, "channels": rnd.choice([1, 2]),
+                         "opts": {"block_size": bs, "max_lpc": rnd.choice([8, 12, 32]), "max_po": 5, "mid_side": True, "fast_corr": False, "window": w, "padding": -1, "seektable": "none"},
+                         "pcm": {"signal": "periodic:%d" % period, "seed": 5, "frames": bs * 2 + 100}})
     # blocks exactly as long as the LPC order allows, one longer, one shorter (a whole block size of order + 1, and a final short block of
     # order, order + 1, order + 2 samples), on bursts a one-tap predictor follows and the fixed ones do not: which candidates are tried at
     # all must not depend on the build
